@@ -451,6 +451,8 @@ class Gen:
                 rng.random() < self.knobs.get("themed_p", 0.2) and \
                 not getattr(self, "one_per_block", False):
             self.themed_edits(edits, per_block)
+        if rng.random() < 0.5 and not getattr(self, "one_per_block", False):
+            self.around_empty_edits(edits, per_block)
         for _ in range(n * 3):
             if len(edits) >= n:
                 break
@@ -548,6 +550,54 @@ class Gen:
                 rng.choice(self.any_labels)]
         return edits
 
+    def around_empty_edits(self, edits, per_block):
+        """modifications next to a zero-sized input block: the block behind it
+        (which shares its address) deleted, replaced or extended at its
+        start, the block in front extended at its end or deleted, the
+        function the zero-sized block belongs to deleted"""
+        rng, case = self.rng, self.case
+        seq = self.all_blocks
+        for k, e in enumerate(seq):
+            if not e["code"] or e["items"] or k + 1 >= len(seq) or not k:
+                continue
+            nxt, prv = seq[k + 1], seq[k - 1]
+            fn = next((f for f in case["funcs"] if e["id"] in f["blocks"]),
+                      None)
+            if fn is not None and nxt["id"] not in fn["blocks"] and \
+                    rng.random() < 0.3 and \
+                    not any(per_block.get(x) for x in fn["blocks"]):
+                for x in fn["blocks"]:
+                    per_block.setdefault(x, []).append(
+                        (0, 10 ** 6, len(edits), "proxy"))
+                edits.append({"op": "delfn", "f": fn["name"]})
+            for b, where in ((nxt, "start"), (prv, "end")):
+                n = len(b["items"])
+                if not n or per_block.get(b["id"]) or rng.random() < 0.4:
+                    continue
+                eid = len(edits)
+                kind = rng.choice(["ins", "ins", "delall", "delproxy",
+                                   "rep"] if where == "start"
+                                  else ["ins", "delall"])
+                if kind == "ins":
+                    i = 0 if where == "start" else n
+                    p = self.patch(eid, True, self.fn_of.get(b["id"])) \
+                        if b["code"] else {"bytes": rng.randbytes(2).hex()}
+                    cand, ed = (i, 0, eid, "ins"), {
+                        "op": "ins", "b": b["id"], "i": i, "p": p}
+                elif kind == "rep":
+                    p = self.patch(eid, True, self.fn_of.get(b["id"])) \
+                        if b["code"] else {"bytes": rng.randbytes(2).hex()}
+                    cand, ed = (0, 1, eid, "rep"), {
+                        "op": "rep", "b": b["id"], "i": 0, "n": 1, "p": p}
+                else:
+                    cand, ed = (0, n, eid, "proxy" if kind == "delproxy"
+                                else "delall"), {
+                        "op": "del", "b": b["id"], "i": 0, "n": n,
+                        "proxy": kind == "delproxy"}
+                if self.valid([cand], n):
+                    per_block.setdefault(b["id"], []).append(cand)
+                    edits.append(ed)
+
     def cross_patch_references(self, edits):
         """a patch may name a global label that a patch applied earlier in
         the same rewrite (lower address, or same place and registered
@@ -596,6 +646,14 @@ class Gen:
             best = max(case["funcs"], key=lambda x: ncalls.get(x["name"], 0))
             if ncalls.get(best["name"], 0) >= 2:
                 f = best
+            # ... or a called function with several returning blocks
+            many = [x for x in case["funcs"] if ncalls.get(x["name"], 0) and
+                    sum(1 for b in self.code_blocks
+                        if b["id"] in x["blocks"] and b["items"] and
+                        vocab.VOCAB[isa][b["items"][-1]["k"]]["kind"]
+                        == "ret") >= 2]
+            if many and rng.random() < 0.5:
+                f = rng.choice(many)
         fname = f["name"]
         sites = [b for b in self.code_blocks if b["items"] and
                  b["items"][-1].get("k") == "call" and
@@ -611,10 +669,15 @@ class Gen:
                                          "before-call"])))
         for b in rng.sample(others, min(len(others), rng.choice([1, 1, 2]))):
             plans.append((b, "patch-calls"))
-        if members and rng.random() < 0.5:
+        if members and rng.random() < 0.6:
             plans.append((rng.choice(members), "patch-rets"))
+            if rng.random() < 0.4:
+                # a second returning patch further on (what the first one
+                # and the call-site edits in between leave behind is what
+                # the second one sees)
+                plans.append((rng.choice(members), "patch-rets"))
         rng.shuffle(plans)
-        for b, what in plans[:3]:
+        for b, what in plans[:4]:
             eid = len(edits)
             n = len(b["items"])
             mods = per_block.setdefault(b["id"], [])
